@@ -174,8 +174,11 @@ class _Gen:
         k = draw(st.integers(2, 4))
         start = draw(st.integers(0, len(PHASE_NAMES) - 1))
         names = [PHASE_NAMES[(start + j) % len(PHASE_NAMES)] for j in range(k)]
-        # (durations from a millisecond to more than a day)
-        spec["phases"] = {nm: draw(logf(1e-3, 1e6)) for nm in names}
+        # durations: all shorter than a second in total / ordinary / from a millisecond to
+        # more than a day
+        cls = draw(st.integers(0, 3))
+        rng = {0: (1e-3, 0.2), 1: (0.1, 1e4), 2: (0.1, 1e4), 3: (1e-3, 1e6)}[cls]
+        spec["phases"] = {nm: draw(logf(*rng)) for nm in names}
         self.phase_names = names
 
     def _subset(self, names, allow_empty=True):
